@@ -210,6 +210,7 @@ func runC18(c *Ctx) {
 	redirectKeepsRequest(c, "R7")
 	offeredAuthorizationKept(c, "R4")
 	lockQueryEncoded(c, "R1")
+	verifyUsesOnlyVerifyAction(c, "R4")
 	// ---- R2 first: which Transfer fields are set on request objects --------------------------
 	setFields := map[string]bool{}
 	tt := p.Fn("tq", "(batch).ToTransfers")
